@@ -12,6 +12,8 @@ CONSTANTS
   BigN = 0
   Acts = {"SetAlpha", "SetHard", "SetMode", "Forward", "Summary"}
   D = 4
+  NameFamily = "plain"
+  NameImpl = "asis"
 INVARIANT TypeOK
 INVARIANT C03_ExportSucceeds
 INVARIANT C03_ExportIsWinner
@@ -21,4 +23,5 @@ INVARIANT C06_Bounds
 INVARIANT C06_AsisIsRef
 INVARIANT C06_HardIsExport
 INVARIANT C06_StoredHot
+INVARIANT C06_FullCostAllFixed
 INVARIANT F23SigExact
